@@ -593,6 +593,7 @@ func vspecPublishOK(src []byte) bool {
 //@   ensures v <= 2 ==> err == nil && m.mtypeflags[0] == old(m.mtypeflags[0]) - old(vspecQoSOf(m.mtypeflags[0]))*2 + v*2
 //@   ensures v <= 2 ==> m.dirty == (old(m.dirty) || ((old(vspecQoSOf(m.mtypeflags[0])) > 0) != (v > 0)))
 //@   ensures[C01:qos] v <= 2 ==> vspecQoSOf(m.mtypeflags[0]) == v
+//@   ensures[type-kept] m.mtypeflags[0]>>4 == old(m.mtypeflags[0]>>4)
 //@   modifies elems(m.mtypeflags, 0, 1), m.dirty
 
 //@ func (*PublishMessage).Topic
@@ -999,6 +1000,37 @@ func vspecCWM(src []byte) int { return vspecCW(src) + 2 + vspecBE16(src, vspecCW
 //@   ensures vdefFreshMsg(result, PINGRESP)
 //@   modifies fields(result)
 
+//@ func NewConnectMessage
+//@   ensures vdefFreshMsg(result, CONNECT)
+//@   modifies fields(result)
+//@ func NewConnackMessage
+//@   ensures vdefFreshMsg(result, CONNACK)
+//@   modifies fields(result)
+//@ func NewPublishMessage
+//@   ensures vdefFreshMsg(result, PUBLISH)
+//@   modifies fields(result)
+//@ func NewSubscribeMessage
+//@   ensures vdefFreshMsg(result, SUBSCRIBE)
+//@   modifies fields(result)
+//@ func NewUnsubscribeMessage
+//@   ensures vdefFreshMsg(result, UNSUBSCRIBE)
+//@   modifies fields(result)
+//@ func NewPingreqMessage
+//@   ensures vdefFreshMsg(result, PINGREQ)
+//@   modifies fields(result)
+//@ func NewDisconnectMessage
+//@   ensures vdefFreshMsg(result, DISCONNECT)
+//@   modifies fields(result)
+
+// Type.New: a fresh message object of exactly that packet type (error iff the type is not a packet type).
+//@ func (Type).New
+//@   results m, err
+//@   ensures[C02:new] (err == nil) == (t >= 1 && t <= 14)
+//@   ensures[C02:new] err == nil ==> m != nil && ifaceval(m, *header) != nil && fresh(ifaceval(m, *header)) && len(ifaceval(m, *header).mtypeflags) == 1 && fresh(arr(ifaceval(m, *header).mtypeflags)) && Type(ifaceval(m, *header).mtypeflags[0]>>4) == t && len(ifaceval(m, *header).packetID) == 0
+//@   ensures[C02:new] err == nil && t == PUBLISH ==> typeis(m, *PublishMessage)
+//@   ensures[C02:new] err != nil ==> m == nil
+//@   modifies fields(ifaceval(m, *header))
+
 // ---------------------------------------------------------------- interface-level contracts of message.Message
 //
 // Assumed at call sites in other packages (trusted). Every implementation of Message in this code base is a pointer
@@ -1035,3 +1067,46 @@ func vspecCWM(src []byte) int { return vspecCW(src) + 2 + vspecBE16(src, vspecCW
 //@   ensures[ghostdef-lastenc] gfield(0, "encn") == n && gfield(0, "encarr") == arr(dst) && gfield(0, "encoff") == off(dst) && gfield(0, "encAt") == gfield(0, "clock")
 //@   ensures[keepid] old(vspecPacketID(ifaceval(self, *header).packetID)) != 0 || !old(ifaceval(self, *header).dirty) ==> vspecPacketID(ifaceval(self, *header).packetID) == old(vspecPacketID(ifaceval(self, *header).packetID))
 //@   modifies elems(dst), ifaceval(self, *header).remlen, ifaceval(self, *header).dirty, ifaceval(self, *header).packetID, gPacketID, gfield(0, "encn"), gfield(0, "encarr"), gfield(0, "encoff"), gfield(0, "encAt")
+
+// Decode at the interface: fills the receiver from src; the fields it returns point into src (C04 per type).
+// Ghost: which bytes the message was decoded from (C02: what is handed on at PUBREL time is what was stored).
+//@ iface Message.Decode
+//@   trusted
+//@   results n, err
+//@   flag args self, src
+//@   ensures err == nil ==> 0 <= n && n <= len(src) && !ifaceval(self, *header).dirty && len(ifaceval(self, *header).mtypeflags) == 1 && arr(ifaceval(self, *header).mtypeflags) == arr(src)
+//@   ensures[ghostdef-dec] gfield(self, "decarr") == arr(src) && gfield(self, "decoff") == off(src) && gfield(self, "declen") == len(src)
+//@   modifies fields(ifaceval(self, *header)), ifaceval(self, *PublishMessage).topic, ifaceval(self, *PublishMessage).payload, ifaceval(self, *SubscribeMessage).topics, ifaceval(self, *SubscribeMessage).qos, ifaceval(self, *UnsubscribeMessage).topics, ifaceval(self, *SubackMessage).returnCodes, ifaceval(self, *ConnackMessage).sessionPresent, ifaceval(self, *ConnackMessage).returnCode, ifaceval(self, *ConnectMessage).connectFlags, ifaceval(self, *ConnectMessage).version, ifaceval(self, *ConnectMessage).keepAlive, ifaceval(self, *ConnectMessage).protoName, ifaceval(self, *ConnectMessage).clientID, ifaceval(self, *ConnectMessage).willTopic, ifaceval(self, *ConnectMessage).willMessage, ifaceval(self, *ConnectMessage).username, ifaceval(self, *ConnectMessage).password, gfield(self, "decarr"), gfield(self, "decoff"), gfield(self, "declen")
+
+//@ func (*ConnectMessage).SetWillFlag
+//@   ensures[C09:flag] vspecCFWill(m.connectFlags) == v && m.dirty
+//@   modifies m.connectFlags, m.dirty
+
+//@ func (*SubscribeMessage).Topics
+//@   pure
+//@   ensures sameslice(result, m.topics) && cap(result) == cap(m.topics)
+//@ func (*SubscribeMessage).Qos
+//@   pure
+//@   ensures sameslice(result, m.qos) && cap(result) == cap(m.qos)
+//@ func (*UnsubscribeMessage).Topics
+//@   pure
+//@   ensures sameslice(result, m.topics) && cap(result) == cap(m.topics)
+
+// AddReturnCodes appends the codes in order; it fails (appending a prefix) only for a code outside {0,1,2,0x80}.
+//@ func (*SubackMessage).AddReturnCodes
+//@   results err
+//@   requires arr(ret) != arr(m.returnCodes) || cap(m.returnCodes) == 0
+//@   loop 1 invariant 0 <= rangeindex+1 && rangeindex < len(ret) && len(m.returnCodes) == old(len(m.returnCodes))+rangeindex+1 && forall(0, rangeindex+1, func(i int) bool { return vspecRetCodeOK(ret[i]) && m.returnCodes[old(len(m.returnCodes))+i] == ret[i] }) && forall(0, old(len(m.returnCodes)), func(i int) bool { return m.returnCodes[i] == old(m.returnCodes[i]) })
+//@   loop 1 invariant[frame] unchanged(ret) && m.dirty == old(m.dirty) && (fresh(arr(m.returnCodes)) || (arr(m.returnCodes) == arr(old(m.returnCodes)) && off(m.returnCodes) == off(old(m.returnCodes)) && cap(m.returnCodes) == cap(old(m.returnCodes)))) && unchangedoutside(old(m.returnCodes), 0, cap(old(m.returnCodes))) && preservedexcept(m.returnCodes)
+//@   ensures[C07:codes] (err == nil) == forall(0, len(ret), func(i int) bool { return vspecRetCodeOK(ret[i]) })
+//@   ensures[C07:codes] err == nil ==> m.dirty && len(m.returnCodes) == old(len(m.returnCodes))+len(ret) && forall(0, len(ret), func(i int) bool { return m.returnCodes[old(len(m.returnCodes))+i] == ret[i] })
+//@   modifies m.returnCodes, m.dirty, capelems(m.returnCodes)
+
+// Clone: a new message object decoded from a fresh encoding of m (never aliases m or its buffers).
+//@ func (*PublishMessage).Clone
+//@   trusted
+//@   results cm, err
+//@   requires len(m.mtypeflags) == 1
+//@   ensures[C08:clone-fresh] err == nil ==> cm != nil && fresh(cm) && len(cm.mtypeflags) == 1 && fresh(arr(cm.mtypeflags)) && Type(cm.mtypeflags[0]>>4) == PUBLISH
+//@   ensures[C08:clone-fresh] err != nil ==> cm == nil
+//@   modifies m.remlen, m.dirty, m.packetID, gPacketID, gfield(0, "encn"), gfield(0, "encarr"), gfield(0, "encoff"), gfield(0, "encAt"), fields(cm)
